@@ -72,6 +72,44 @@ def _fact(e, validator):
     return False
 
 
+def probe_identity_keys(ctx):
+    """Dict keys that hash by identity (plain objects, e.g. enum-less sentinels): the path of an
+    error below such a key must still be followable from the root value.  Outside the model's value
+    universe (keys are abstracted by equality), so this is a direct probe."""
+    from d42 import schema, validate
+
+    class K:
+        def __repr__(self):
+            return "K()"
+
+    k1, k2 = K(), K()
+    probes = [
+        ("schema.dict({k: schema.dict({'a': schema.int})})", schema.dict({k1: schema.dict({"a": schema.int})}), {k1: {"a": "x"}}),
+        ("schema.dict({k: schema.list([schema.int])})", schema.dict({k1: schema.list([schema.int])}), {k1: ["x"]}),
+        ("schema.dict({k: schema.int})", schema.dict({k1: schema.int}), {k1: "x"}),
+        ("schema.dict({'o': schema.dict({k: schema.dict({'a': schema.str})})})",
+         schema.dict({"o": schema.dict({k2: schema.dict({"a": schema.str})})}), {"o": {k2: {"a": 1}}}),
+    ]
+    n = 0
+    for src, s, v in probes:
+        for e in validate(s, v).get_errors():
+            n += 1
+            try:
+                reached = _resolve(v, e.path)
+                ok = _same(reached, e.actual_value)
+                why = f"path reaches {reached!r}, error reports {e.actual_value!r}"
+            except Exception as ex:  # noqa
+                ok, why = False, f"following the path raises {type(ex).__name__}"
+            if not ok:
+                ex_ = f"validate({src}, <value with the same key object>): {why}"
+                if len(e.path) >= 2 and ctx.known_finding("F35", ex_):
+                    continue
+                ctx.violation("an error below a dict key that hashes by identity cannot be located: " + why,
+                              {"kind": "input", "schema": src, "observed": why,
+                               "expected": "the path resolves to the reported sub-value"})
+    return n
+
+
 def oracle(c, ctx, fmt, validator):
     """Direct check of the property on the implementation's own error list."""
     bad = []
@@ -125,7 +163,25 @@ def run(ctx):
     depth = ctx.scale(3, 5)
     cases = vsuite.make_cases(ctx, n, depth, zoo_rate=0.15, perturb=ctx.scale(10, 16))
     # the partial validator shares the paths (d42/substitution/_validator.py)
-    cases += vsuite.make_cases(ctx, n // 4, depth, zoo_rate=0.1, perturb=6, modes=("Subst",))
+    sub_cases = vsuite.make_cases(ctx, n // 4, depth, zoo_rate=0.1, perturb=6, modes=("Subst",))
+    cases += sub_cases
+    # the substitution-mode validator skips `...` placeholders: errors of the OTHER members must still be located
+    import ssuite
+    r = ctx.rng
+    for c0 in r.sample(sub_cases, min(len(sub_cases), ctx.scale(400, 4000))):
+        if isinstance(c0.value, (list, dict)) and c0.value:
+            for pv in ssuite.with_placeholders(r, c0.value)[:3]:
+                c = vsuite.Case()
+                c.ssrc, c.schema, c.value, c.origin, c.mode, c.unmodelled = c0.ssrc, c0.schema, pv, "placeholder", "Subst", None
+                cases.append(c)
+    for ssrc, vtext in [("schema.list(schema.int)", "[..., 1, 'a']"), ("schema.list(schema.int)", "['a', 1, ...]"),
+                        ("schema.list(schema.str.len(1))", "[..., 'ab', 'c', 'de']"), ("schema.list(schema.int).len(2)", "[..., 1, 2, 'x']"),
+                        ("schema.dict({'k': schema.list(schema.int)})", "{'k': [..., 'x']}"),
+                        ("schema.list([schema.int, schema.str])", "[..., 'x']"), ("schema.list([..., schema.int])", "[..., 'x']"),
+                        ("schema.dict({'a': schema.int, 'b': schema.str})", "{'a': ..., 'b': 1}")]:
+        c = vsuite.Case()
+        c.ssrc, c.schema, c.value, c.origin, c.mode, c.unmodelled = ssrc, gen.build(ssrc), eval(vtext, dict(gen.NS)), "placeholder", "Subst", None
+        cases.append(c)
     fmt = Formatter()
     vals = {"Plain": Validator(), "Subst": SubstitutorValidator()}
     oracle_cases = 0
@@ -141,6 +197,7 @@ def run(ctx):
             rp = c.replay_dict()
             rp.update(observed=pr, expected="path resolves to the reported value, fact true, message names the path")
             ctx.violation(pr, rp)
+    identity_key_errors = probe_identity_keys(ctx)
     modelled = [c for c in cases if c.term is not None]
     bad = common.eval_cases(ctx.workdir, "c03", [c.term for c in modelled], "vcase", "vcase_ok")
     dist, kinds = vsuite.distribution(cases)
